@@ -148,7 +148,13 @@ def handleC03 (args : List String) (obs : String) : String :=
     let (method, fields) := Framing.fieldsOfHead (c.all.take headEnd)
     let cookieBad := (Framing.valuesOf fields "cookie").any fun v =>
       (((splitOn 59 v).map trimWs).filter (· ≠ [])).any (fun seg => !seg.contains 61)
+    -- a field value with a byte ≥ 0x80 makes the head itself malformed (field values are ASCII, C02): it must be refused as
+    -- such — never accepted with that field dropped
+    let obsText := fields.any fun f => f.2.any (· ≥ 128)
     let fails : List String :=
+      if obsText then
+        (if obs.startsWith "err:MalformedHeaderLine " then [] else if obs.startsWith "ok " then ["malformed-head-accepted"] else ["wrong-rejection"])
+      else
       match Framing.verdict method fields with
       | .reject =>
         if obs.startsWith "err:InvalidContentLength " || obs.startsWith "err:UnsupportedTransferEncoding " then []
